@@ -81,6 +81,9 @@ var c07Attacks = []C07Plan{
 	{Attack: "control-builder"},
 	{Attack: "wrong-nonce"}, {Attack: "replay-other-session"}, {Attack: "token-other-guid"}, {Attack: "dev2-over-dev1-session"},
 	{Attack: "unregistered-guid"},
+	// the registered voucher names no device certificate (OVDevCertChain null):
+	// nobody can prove to be that device, whatever key signs
+	{Attack: "no-device-cert", KeyRole: "att1"}, {Attack: "no-device-cert", KeyRole: "dev1"},
 	{Attack: "clock", Clock: -1}, {Attack: "clock", Clock: 1}, {Attack: "clock", Clock: 86400 * 400},
 	{Attack: "clock-midsession", Clock: 1},
 	{Attack: "blob-resign", KeyRole: "att1"}, {Attack: "blob-resign", KeyRole: "owner2"}, {Attack: "blob-bitflip"},
@@ -200,7 +203,22 @@ func c07Run(env *Env, pl *C07Plan, collect map[int][]byte) {
 	})
 	regTime := time.Now()
 	c := &fdo.TO0Client{Vouchers: on.Store, OwnerKeys: on.Store, TTL: ttl}
-	if _, err := c.RegisterBlob(ctx, s.Transport("owner1", "rv"), d1.Cred.GUID, addrs); err != nil {
+	if pl.Attack == "no-device-cert" {
+		vb, ok := on.Sim.VoucherBytes(d1.Cred.GUID)
+		n, perr := ParseCBOR(vb)
+		if !ok || perr != nil || len(n.Kids) != 5 {
+			setupFail("strip-cert-chain", fmt.Errorf("voucher bytes: ok=%v err=%v", ok, perr))
+			return
+		}
+		stripped := append(append(append([]byte(nil), vb[:n.Kids[3].Start]...), 0xf6), vb[n.Kids[3].End:]...)
+		on.Sim.PutVoucherBytes(d1.Cred.GUID, stripped)
+		o.Fault("voucher-without-device-cert")
+		if _, err := c.RegisterBlob(ctx, s.Transport("owner1", "rv"), d1.Cred.GUID, addrs); err != nil {
+			// the rendezvous server does not take such vouchers: nothing to release
+			o.Class = "certless-voucher-not-registered"
+			return
+		}
+	} else if _, err := c.RegisterBlob(ctx, s.Transport("owner1", "rv"), d1.Cred.GUID, addrs); err != nil {
 		setupFail("TO0", err)
 		return
 	}
@@ -388,14 +406,14 @@ func c07Run(env *Env, pl *C07Plan, collect map[int][]byte) {
 	mustReject := true
 	var body []byte
 	switch pl.Attack {
-	case "forged-signer", "control-builder", "wrong-nonce":
+	case "forged-signer", "control-builder", "wrong-nonce", "no-device-cert":
 		n, err := helloRV(adv, d1.Cred.GUID)
 		if err != nil {
 			setupFail("helloRV", err)
 			return
 		}
 		signer := d1.Key
-		if pl.Attack == "forged-signer" {
+		if pl.Attack == "forged-signer" || pl.Attack == "no-device-cert" {
 			signer = s.Keys.Get(pl.KeyRole, cfg.Fam())
 		}
 		if pl.Attack == "control-builder" {
